@@ -148,7 +148,14 @@ def build(spec, fmts=None, zinit=None):
     for name, idx in spec["ops"]:
         ids = [rid(v) for v in idx]
         shape = [spec["ext"][v] for v in idx]
-        t = Tensor.fromUncompressed(rank_ids=ids, root=spec["vals"][name], shape=shape, name=name)
+        if spec.get("noshape") and idx:
+            # operand without a declared shape: every rank's shape is the library's running estimate
+            # (fibers made of explicit coordinate / payload lists: their extents are estimates too)
+            from . import gen
+            cont = gen.nest_content(spec["vals"][name], 0)
+            t = Tensor.fromFiber(rank_ids=ids, fiber=gen.fiber_from_spec(gen.spec_from_content(cont, len(idx))), name=name)
+        else:
+            t = Tensor.fromUncompressed(rank_ids=ids, root=spec["vals"][name], shape=shape, name=name)
         lv = list(idx)
         for v, size in spec["tiles"].items():
             if v in idx:
